@@ -36,6 +36,45 @@ def padNd [Inhabited α] (zero : α) (a : Arr α) (w : List (Nat × Nat)) : Arr 
     | some i => a.get i
     | none => zero
 
+/-- `np.pad(a, w, mode=…, **kwargs)` for ANY mode: the original block sits at offset `before` on
+every axis; a padded position `j` outside it is filled by an arbitrary rule `fill j` (constant,
+edge, wrap, reflect, a user function …).  `padNd zero` is the instance `fill = fun _ => zero`. -/
+def padNdWith [Inhabited α] (fill : List Nat → α) (a : Arr α) (w : List (Nat × Nat)) : Arr α :=
+  build (padShape a.shape w) fun j =>
+    match padSrc a.shape w j with
+    | some i => a.get i
+    | none => fill j
+
+/-- the `mode`s of `np.pad` that read the padding from the array itself -/
+inductive PadRule | edge | wrap | reflect | symmetric
+  deriving DecidableEq, Repr, Inhabited
+
+/-- source coordinate, along one axis of length `n` padded by `b` leading entries, of padded
+coordinate `i`: `edge` clamps, `wrap` is periodic with period `n`, `reflect` is periodic with
+period `2(n-1)` (mirror without repeating the edge), `symmetric` with period `2n` (edge repeated) -/
+def padAxisSrc (r : PadRule) (n b i : Nat) : Nat :=
+  let t : Int := (i : Int) - (b : Int)
+  match r with
+  | .edge => (min (max t 0) ((n : Int) - 1)).toNat
+  | .wrap => (t % (n : Int)).toNat
+  | .reflect =>
+      if n ≤ 1 then 0 else
+      let p : Int := 2 * ((n : Int) - 1)
+      let u := t % p
+      (if u < (n : Int) then u else p - u).toNat
+  | .symmetric =>
+      let p : Int := 2 * (n : Int)
+      let u := t % p
+      (if u < (n : Int) then u else p - 1 - u).toNat
+
+def padRuleSrc (r : PadRule) : List Nat → List (Nat × Nat) → List Nat → List Nat
+  | n :: ns, (b, _) :: ws, i :: j => padAxisSrc r n b i :: padRuleSrc r ns ws j
+  | _, _, _ => []
+
+/-- `np.pad(a, w, mode="edge" | "wrap" | "reflect" | "symmetric")` -/
+def padNdRule [Inhabited α] (r : PadRule) (a : Arr α) (w : List (Nat × Nat)) : Arr α :=
+  padNdWith (fun j => a.get (padRuleSrc r a.shape w j)) a w
+
 /-! ### crop -/
 
 /-- Python `dict(zip(keys, vals))`: insertion ordered, a repeated key keeps its first position
